@@ -530,6 +530,76 @@ where
 
 }
 
+/// Verification hooks (read-only views of the raw heap), compiled only with `--cfg garnish_verif`.
+#[cfg(garnish_verif)]
+impl<T, Companion> BasicGarnishData<T, Companion>
+where
+    T: BasicDataCustom,
+    Companion: BasicDataCompanion<T>,
+{
+    /// (start, cursor, size) of the six storage blocks in heap order:
+    /// instructions, jump table, symbol table, expression symbols, data, custom data
+    pub fn verif_blocks(&self) -> [(usize, usize, usize); 6] {
+        let b = |b: &StorageBlock| (b.start, b.cursor, b.size);
+        [
+            b(&self.instruction_block),
+            b(&self.jump_table_block),
+            b(&self.symbol_table_block),
+            b(&self.expression_symbol_block),
+            b(&self.data_block),
+            b(&self.custom_data_block),
+        ]
+    }
+
+    /// raw heap cell
+    pub fn verif_cell(&self, heap_index: usize) -> Option<&BasicData<T>> {
+        self.data.get(heap_index)
+    }
+
+    pub fn verif_heap_len(&self) -> usize {
+        self.data.len()
+    }
+
+    /// (current_value, current_register, current_frame, data_retention_count)
+    pub fn verif_heads(&self) -> (Option<usize>, Option<usize>, Option<usize>, usize) {
+        (self.current_value, self.current_register, self.current_frame, self.data_retention_count)
+    }
+
+    fn verif_data_cell(&self, index: usize) -> Option<&BasicData<T>> {
+        if index < self.data_block.cursor { self.data.get(self.data_block.start + index) } else { None }
+    }
+
+    /// number of entries on the input-value stack
+    pub fn verif_value_depth(&self) -> usize {
+        let mut n = 0;
+        let mut cur = self.current_value;
+        while let Some(i) = cur {
+            match self.verif_data_cell(i) {
+                Some(BasicData::Value(prev, _)) => { n += 1; cur = Some(*prev); }
+                Some(BasicData::ValueRoot(_)) => { n += 1; cur = None; }
+                _ => break,
+            }
+            if n > self.data.len() { break; }
+        }
+        n
+    }
+
+    /// number of frames on the call-frame chain
+    pub fn verif_frame_depth(&self) -> usize {
+        let mut n = 0;
+        let mut cur = self.current_frame;
+        while let Some(i) = cur {
+            match self.verif_data_cell(i) {
+                Some(BasicData::Frame(prev, _)) | Some(BasicData::FrameIndex(prev)) => { n += 1; cur = Some(*prev); }
+                Some(BasicData::FrameRegister(_)) | Some(BasicData::FrameRoot) => { n += 1; cur = None; }
+                _ => break,
+            }
+            if n > self.data.len() { break; }
+        }
+        n
+    }
+}
+
 #[cfg(test)]
 pub mod utilities {
     use crate::{
